@@ -29,6 +29,7 @@ fn <file> :: <impl key> :: <name>          (or  fn <file> :: <name>  for free fu
       requires: ...
       ensures: ...
       tail: <text appended inside the helper body after the outlined text, e.g. the variable a multi-statement outline binds>
+      optional: yes   (if the expression is absent nothing is outlined -- and nothing assumed --, the body is verified as it stands)
   extra                                     (raw Verus items emitted after the function's enclosing item)
   attr <attribute text>
 end
@@ -247,7 +248,7 @@ def parse_sidecar(path):
             txt, i = block(i + 1)
             curf = None
             for bl in txt.split('\n'):
-                fm = re.match(r'\s*(expr|sig|call|requires|ensures|attr|tail):\s?(.*)$', bl)
+                fm = re.match(r"\s*(expr|sig|call|requires|ensures|attr|tail|optional):\s?(.*)$", bl)
                 if fm:
                     curf = fm.group(1)
                     o.fields[curf] = fm.group(2)
